@@ -2,17 +2,35 @@ from contracts import history, primitives, useractions
 from ._common import TRUSTED_TRACKS, UA_ALL
 
 LEVEL = "proof"
-TRUSTED = TRUSTED_TRACKS
+TRUSTED = TRUSTED_TRACKS + ["call-site contracts of the sub-action constructors used by UserUpdateSegmentation at the level of abstract world states (raise => world unchanged; return => a record with src/dst; registers/emits iff _top_level): proved of the real UserDeleteNode / UserAddNode constructors (clauses C11 on-raise, C02/C20 iff-top-level) and of the primitive UpdateNodeSeg (contracts/segprims.py); a.inverse() moves the world from dst(a) to src(a) (C01's conclusion)"]
 EXPLANATION = ("Exceptional postcondition: on every symbolic path of a user-action constructor (and of every primitive) that ends "
                "in a raise, the ghost counters of completed mutations, history registrations and refresh emissions equal their "
-               "entry values. Path feasibility is decided under INV; an infeasible raising path is discharged as hyps |- False.")
-ASSUMPTIONS = ["documented argument typing: time / track id attribute values are ints", "UserUpdateSegmentation: see C07/known findings"]
+               "entry values. Path feasibility is decided under INV; an infeasible raising path is discharged as hyps |- False. "
+               "UserUpdateSegmentation (contracts/paint.py): whichever step raises - no segmentation, a refused sub-action after any number of applied "
+               "ones, the one-time-point assertion, a missing tracklet key - the rollback loop inverts the applied sub-actions in reverse order, each "
+               "where it is invertible, and ends in the entry world (loop invariant over lists of every length); nothing is registered or emitted.")
+ASSUMPTIONS = ["documented argument typing: time / track id attribute values are ints", "UserUpdateSegmentation: 'once the caller has restored the painted pixels' - the array cells the caller painted are outside the abstract world state"]
 
 
 def units(tier):
-    return useractions.units(UA_ALL) + primitives.units()
+    from contracts import paint
+    return useractions.units(UA_ALL) + primitives.units() + paint.units()
 
 
 def witness(label, failure, seed):
     from pyvc.native_bridge import tracks_witness
     return tracks_witness("C11", label, failure, seed)
+
+
+def bounded(tier, seed):
+    """the paint-driven UserUpdateSegmentation is under contract only at the level of abstract world states: native
+    scenarios check the concrete state (graph, attributes, array, lookups, history) after every refused stroke;
+    a recorded known finding is recognised by its call site and message, anything else is a violation"""
+    import json
+    import os
+    from pyvc.native_bridge import bounded_harness, bounded_paint
+    from pyvc.report import KNOWN
+    pats = [k["pattern"] for k in json.load(open(KNOWN)).get("findings", []) if k.get("property") == "C11" and k.get("bounded") == "refused-paint"]
+    return [bounded_harness(tier, "C11", "refused-paint", "refused edits (all seven user actions, paint strokes emphasised) must leave graph, attributes, "
+                            "segmentation, lookups and history unchanged and emit nothing", seed, focus="paint", segonly=True, ignore=pats),
+            bounded_paint(tier, "C11", "a refused stroke (caller restores the painted pixels) leaves graph, attributes, segmentation, lookups and history unchanged", ignore=pats)]
